@@ -132,10 +132,14 @@ func run(t *testing.T, sc scenario) (res result) {
 			res.handed = append(res.handed, send(src, dst, link, i, fs))
 			w.Pump(3) // one frame per round keeps the hand-over order = wire order
 		}
-		// one frame of the reverse direction for splicing.
-		send(dst, src, rlink, 900, fspec{frame.SessionData, 40})
-		w.Pump(3)
-		payloads = payloads[:len(payloads)-1]
+		// frames of the reverse direction for splicing / reflection (several, so that the
+		// last one carries a sequence number the receiver has not seen from its peer).
+		nrev := len(sc.frames) + 3
+		for i := 0; i < nrev; i++ {
+			send(dst, src, rlink, 900+i, fspec{frame.SessionData, 40})
+			w.Pump(3)
+		}
+		payloads = payloads[:len(payloads)-nrev]
 		if len(held) != len(sc.frames) {
 			panic(fmt.Sprintf("harness: expected %d held link frames, got %d", len(sc.frames), len(held)))
 		}
@@ -201,7 +205,7 @@ func cat(chunks ...[]byte) [][]byte { return chunks }
 func TestC05(t *testing.T) {
 	env := kit.GetEnv()
 	rep := kit.NewReport("C05", env)
-	rep.Rule = "one real established link per execution (real handshake, adversary-owned stream); frames handed to the link: message types {signed priority, regular encrypted, session data} x sizes {1,45,560,1500,9000,10000}; faults on the held link frames: every bit of every byte of a link frame (length prefix, header, ciphertext, MAC; large frames: all header/MAC bits + one bit per ciphertext byte), truncation at every offset (quick: every offset of a small frame), all words of length <= 2 (thorough 3) over {dup i, swap i/i+1, drop i}, injection of 1..64 arbitrary bytes at a frame boundary, well-framed garbage with every length prefix 0..40 and 100, splice of a frame of the reverse direction, the same frame delivered 3 times; both directions; afterwards two intact frames; non-trivial = any fault; distinct = distinct (frames, fault); states = distinct (delivered multiset, post-frames-arrived, closing) outcomes"
+	rep.Rule = "one real established link per execution (real handshake, adversary-owned stream); frames handed to the link: message types {signed priority, regular encrypted, session data} x sizes {1,45,560,1500,9000,10000}; faults on the held link frames: every bit of every byte of a link frame (length prefix, header, ciphertext, MAC; large frames: all header/MAC bits + one bit per ciphertext byte), truncation at every offset (quick: every offset of a small frame), all words of length <= 2 (thorough 3) over {dup i, swap i/i+1, drop i}, injection of 1..64 arbitrary bytes at a frame boundary, well-framed garbage with every length prefix 0..40 and 100, splice / reflection of frames of the reverse direction (with sequence numbers the receiver has and has not seen), loss bursts of g-1 frames followed by a replay of the frame before the burst (g around the 64-frame window edge; thorough 1..70), the same frame delivered 3 times; both directions; afterwards two intact frames; non-trivial = any fault; distinct = distinct (frames, fault); states = distinct (delivered multiset, post-frames-arrived, closing) outcomes"
 	rep.Assumptions = []string{
 		"faults that destroy the stream framing (truncation, length-prefix flips, partial injections) are judged by the safety oracle only: resynchronisation of a byte stream is not something the statement promises",
 		"a reader panic is observed through the module manager's worker-panic alert",
@@ -458,6 +462,51 @@ func TestC05(t *testing.T) {
 				return out
 			}}
 		judge(sc, run(t, sc))
+	}
+	// ---- loss bursts: frame 0 arrives, g-1 frames are lost, frame g arrives, frame 0 is replayed.
+	gaps := []int{1, 2, 3, 62, 63, 64, 65, 66}
+	if env.Thorough() {
+		gaps = nil
+		for g := 1; g <= 70; g++ {
+			gaps = append(gaps, g)
+		}
+	}
+	for _, rv := range []bool{false, true} {
+		for _, g := range gaps {
+			if !mine() {
+				continue
+			}
+			g := g
+			var many []fspec
+			for i := 0; i <= g; i++ {
+				many = append(many, fspec{frame.SessionData, 20})
+			}
+			sc := scenario{name: fmt.Sprintf("gap-then-replay@gap%d-rev%v", g, rv), frames: many, reverse: rv, expect: 2,
+				build: func(h, r [][]byte) [][]byte { return cat(h[0], h[g], h[0], h[g]) }}
+			judge(sc, run(t, sc))
+		}
+	}
+	// ---- reflection: a frame the receiver itself sent is fed back to it, before
+	// and after it has received anything from its peer.
+	for _, rv := range []bool{false, true} {
+		for _, pos := range []int{0, 1, 2} {
+			if !mine() {
+				continue
+			}
+			pos := pos
+			sc := scenario{name: fmt.Sprintf("reflect-own-frame@pos%d-rev%v", pos, rv), frames: twoSmall, reverse: rv, expect: 2,
+				build: func(h, r [][]byte) [][]byte {
+					own := r[len(r)-1]
+					switch pos {
+					case 0:
+						return cat(own, h[0], h[1])
+					case 1:
+						return cat(h[0], own, h[1])
+					}
+					return cat(h[0], h[1], own)
+				}}
+			judge(sc, run(t, sc))
+		}
 	}
 	// ---- splice of a reverse-direction frame between the two frames.
 	if mine() {
